@@ -283,3 +283,129 @@ Proof.
     repeat (apply andb_prop in Hc; destruct Hc as [Hc ?]). b2p. subst zbp.
     repeat split; try assumption; try reflexivity.
 Qed.
+
+(* =====================================================================================
+   3. coefficient <-> sign-magnitude word (shift = 31 - Kmax): exact iff the magnitude fits Kmax
+   ===================================================================================== *)
+Lemma land_pow2_small : forall x n, 0 <= n -> 0 <= x < 2 ^ n -> Z.land x (2 ^ n) = 0.
+Proof.
+  intros x n Hn Hx. apply Z.bits_inj'. intros m Hm.
+  rewrite Z.land_spec, Z.pow2_bits_eqb, Z.bits_0 by lia.
+  destruct (Z.eqb_spec n m) as [->|]; [|apply andb_false_r].
+  destruct (Z.eq_dec x 0) as [->|]; [rewrite Z.bits_0; reflexivity|].
+  rewrite Z.bits_above_log2; [reflexivity|lia|]. apply Z.log2_lt_pow2; lia.
+Qed.
+
+Lemma wrapS32_small : forall x, - 2 ^ 31 <= x < 2 ^ 31 -> wrapS 32 x = x.
+Proof.
+  intros x Hx. unfold wrapS. change (2 ^ 32) with 4294967296 in *. change (2 ^ (32 - 1)) with 2147483648 in *.
+  change (2 ^ 31) with 2147483648 in *.
+  destruct (Z_lt_le_dec x 0).
+  - assert (E : x mod 4294967296 = x + 4294967296) by (symmetry; apply Z.mod_unique with (q := -1); lia).
+    rewrite E. destruct (Z.ltb_spec (x + 4294967296) 2147483648); lia.
+  - rewrite Z.mod_small by lia. destruct (Z.ltb_spec x 2147483648); lia.
+Qed.
+
+Theorem ht_sample_roundtrip : forall kmax v, 1 <= kmax <= 30 -> Z.abs v < 2 ^ kmax ->
+  ht_sample_unpack kmax (ht_sample_pack kmax v) = v.
+Proof.
+  intros kmax v Hk Hv.
+  set (s := 31 - kmax). assert (Hs : 1 <= s <= 30) by (unfold s; lia).
+  assert (Hp31 : 2 ^ 31 = 2 ^ kmax * 2 ^ s) by (unfold s; rewrite <- Z.pow_add_r by lia; f_equal; lia).
+  assert (Hk30 : 2 ^ kmax <= 2 ^ 30) by (apply Z.pow_le_mono_r; lia).
+  assert (Hs0 : 0 < 2 ^ s) by (apply Z.pow_pos_nonneg; lia).
+  change (2 ^ 30) with 1073741824 in Hk30.
+  unfold ht_sample_pack, ht_sample_unpack. fold s.
+  set (mag := Z.abs v) in *.
+  assert (Emag : (if v <? 0 then wrapS 32 (- v) else v) = mag).
+  { unfold mag. destruct (Z.ltb_spec v 0).
+    - rewrite wrapS32_small by (change (2 ^ 31) with 2147483648; lia). lia.
+    - lia. }
+  rewrite Emag.
+  assert (Hm32 : wrapU 32 mag = mag) by (unfold wrapU; apply Z.mod_small; change (2 ^ 32) with 4294967296; lia).
+  rewrite Hm32. rewrite Z.shiftl_mul_pow2 by lia.
+  assert (Hx : 0 <= mag * 2 ^ s < 2 ^ 31) by (rewrite Hp31; nia).
+  assert (Hx32 : wrapU 32 (mag * 2 ^ s) = mag * 2 ^ s).
+  { unfold wrapU; apply Z.mod_small. change (2 ^ 32) with (2 * 2 ^ 31). lia. }
+  rewrite Hx32. set (x := mag * 2 ^ s) in *.
+  change 2147483647 with (Z.ones 31). change 2147483648 with (2 ^ 31).
+  destruct (Z.ltb_spec v 0) as [Hneg|Hpos].
+  - rewrite !Z.land_lor_distr_l.
+    rewrite (Z.land_ones x) by lia. rewrite (Z.mod_small x) by lia.
+    rewrite (Z.land_ones (2 ^ 31)) by lia. rewrite Z.mod_same by lia. rewrite Z.lor_0_l.
+    rewrite Z.land_diag, (land_pow2_small x 31) by lia. rewrite Z.lor_0_r.
+    change (2 ^ 31 =? 0) with false. cbn [negb].
+    rewrite Z.shiftr_div_pow2 by lia. unfold x. rewrite Z.div_mul by lia. unfold mag. lia.
+  - rewrite !Z.lor_0_l.
+    rewrite (Z.land_ones x) by lia. rewrite (Z.mod_small x) by lia.
+    rewrite (land_pow2_small x 31) by lia. rewrite Z.eqb_refl. cbn [negb].
+    rewrite Z.shiftr_div_pow2 by lia. unfold x. rewrite Z.div_mul by lia. unfold mag. lia.
+Qed.
+
+(* =====================================================================================
+   4. Scup locator
+   ===================================================================================== *)
+(* arithmetic core, decided over the whole domain: every legal Scup x every previous byte *)
+Definition scup_arith_ok (scup prev : Z) : bool :=
+  let last' := wrapU 8 (Z.shiftr scup 4) in
+  let prev' := Z.lor (Z.land prev 240) (wrapU 8 (Z.land scup 15)) in
+  is_byte last' && is_byte prev' &&
+  (Z.lor (Z.shiftl last' 4) (Z.land prev' 15) =? scup) && (Z.land prev' 240 =? Z.land prev 240).
+Lemma scup_arith : forall scup prev, 0 <= scup <= 4079 -> 0 <= prev < 256 -> scup_arith_ok scup prev = true.
+Proof.
+  intros scup prev Hs Hp.
+  assert (H : forallb (fun s => forallb (scup_arith_ok s) (zseq 256)) (zseq 4080) = true) by (vm_compute; reflexivity).
+  pose proof (proj1 (forallb_forall _ _) H scup (In_zseq 4080 scup ltac:(change (Z.of_nat 4080) with 4080; lia))) as H1.
+  cbv beta in H1.
+  exact (proj1 (forallb_forall _ _) H1 prev (In_zseq 256 prev ltac:(change (Z.of_nat 256) with 256; lia))).
+Qed.
+
+Lemma znth_app_r : forall (l1 l2 : list Z) i d, zlen l1 <= i -> znth (l1 ++ l2) i d = znth l2 (i - zlen l1) d.
+Proof.
+  intros l1 l2 i d Hi. unfold znth, zlen in *.
+  destruct (Z.ltb_spec i 0); [lia|]. destruct (Z.ltb_spec (i - Z.of_nat (length l1)) 0); [lia|].
+  rewrite app_nth2 by lia. f_equal. lia.
+Qed.
+
+(* scup_roundtrip: for every block of at least 2 bytes and every legal Scup (2 <= Scup <= len,
+   Scup <= 4079) the decoder's parseStandardSegments, applied to the block after
+   writeScupLocator, accepts it and splits it exactly Scup bytes from the end; the writer changes
+   only the last byte and the low nibble of the second-last byte. *)
+Theorem scup_roundtrip : forall pre prev last scup,
+  0 <= prev < 256 ->
+  let block := pre ++ [prev; last] in
+  2 <= scup <= zlen block -> scup <= 4079 ->
+  let block' := scup_write block scup in
+  exists prev' last', block' = pre ++ [prev'; last'] /\
+    Z.land prev' 240 = Z.land prev 240 /\ 0 <= prev' < 256 /\ 0 <= last' < 256 /\
+    scup_parse block' = Ok (firstn (Z.to_nat (zlen block - scup)) block',
+                            skipn (Z.to_nat (zlen block - scup)) block') /\
+    zlen (skipn (Z.to_nat (zlen block - scup)) block') = scup.
+Proof.
+  intros pre prev last scup Hprev block Hs H4079 block'.
+  pose proof (scup_arith scup prev ltac:(lia) Hprev) as Ha. unfold scup_arith_ok in Ha.
+  set (last' := wrapU 8 (Z.shiftr scup 4)) in *.
+  set (prev' := Z.lor (Z.land prev 240) (wrapU 8 (Z.land scup 15))) in *.
+  repeat (apply andb_prop in Ha; destruct Ha as [Ha ?]).
+  unfold is_byte in *. repeat match goal with H : (_ && _) = true |- _ => apply andb_prop in H; destruct H end. b2p.
+  assert (Eb : block' = pre ++ [prev'; last']).
+  { unfold block', scup_write, block. rewrite rev_app_distr. cbn [rev app scup_write_rev].
+    fold last' prev'. cbn [rev app]. rewrite rev_involutive. rewrite <- app_assoc. reflexivity. }
+  exists prev', last'. split; [exact Eb|]. split; [assumption|]. split; [lia|]. split; [lia|].
+  assert (Elen : zlen block' = zlen block).
+  { rewrite Eb. unfold block, zlen. rewrite !app_length. reflexivity. }
+  assert (Elen2 : zlen block = zlen pre + 2).
+  { unfold block, zlen. rewrite app_length. cbn [length]. lia. }
+  split.
+  - unfold scup_parse. rewrite Elen.
+    destruct (Z.ltb_spec (zlen block) 2); [lia|].
+    assert (E1 : znth block' (zlen block - 1) 0 = last').
+    { rewrite Eb, znth_app_r by lia. replace (zlen block - 1 - zlen pre) with 1 by lia. reflexivity. }
+    assert (E2 : znth block' (zlen block - 2) 0 = prev').
+    { rewrite Eb, znth_app_r by lia. replace (zlen block - 2 - zlen pre) with 0 by lia. reflexivity. }
+    rewrite E1, E2.
+    match goal with H : Z.lor (Z.shiftl last' 4) (Z.land prev' 15) = scup |- _ => rewrite H end.
+    destruct (Z.ltb_spec scup 2); [lia|]. destruct (Z.gtb_spec scup (zlen block)); [lia|].
+    destruct (Z.gtb_spec scup 4079); [lia|]. cbn [orb]. reflexivity.
+  - unfold zlen. rewrite skipn_length. fold (zlen block'). unfold zlen in *. lia.
+Qed.
